@@ -31,11 +31,11 @@ func c16SetLevel(n string) { logger.GetLogger(n).SetLevel(logger.CRITICAL) }
 // (crash images that must not start, injected faults) would flood stderr.
 type c16Logger struct{}
 
-func (c16Logger) SetLevel(logger.LogLevel)         {}
-func (c16Logger) Debugf(string, ...interface{})    {}
-func (c16Logger) Infof(string, ...interface{})     {}
-func (c16Logger) Warningf(string, ...interface{})  {}
-func (c16Logger) Errorf(string, ...interface{})    {}
+func (c16Logger) SetLevel(logger.LogLevel)          {}
+func (c16Logger) Debugf(string, ...interface{})     {}
+func (c16Logger) Infof(string, ...interface{})      {}
+func (c16Logger) Warningf(string, ...interface{})   {}
+func (c16Logger) Errorf(string, ...interface{})     {}
 func (c16Logger) Panicf(f string, a ...interface{}) { panic(fmt.Sprintf(f, a...)) }
 
 func init() {
@@ -242,29 +242,17 @@ func (w *c16Run) raceSave() {
 	legal := func(needFinalize bool) {
 		// the real locks exclude these interleavings: the save is inside
 		// SSEnv.FinalizeSnapshot (server.finalizeLock) resp. holds the LogReader lock
-		if needFinalize {
-			in := false
-			tr := w.hook.trace[:len(w.hook.trace)-1]
-			for i, t := range tr {
-				if strings.HasPrefix(t, "create ") && strings.Contains(t, ".generating/dragonboat.snapshot.message") {
-					in = true
-				}
-				if in && i > 0 && strings.HasPrefix(tr[i-1], "rename ") && strings.HasPrefix(t, "syncdir ") {
-					in = false
-				}
-			}
-			last := w.hook.trace[len(w.hook.trace)-1]
-			if strings.HasPrefix(last, "create ") && strings.Contains(last, ".generating/dragonboat.snapshot.message") {
-				in = true
-			}
-			if in {
-				panic(c16Abort{"inside FinalizeSnapshot (finalizeLock held)"})
-			}
+		if needFinalize && server.VerifFinalizeLocked() {
+			panic(c16Abort{"inside FinalizeSnapshot (finalizeLock held)"})
 		}
 		if !w.rep.node.logReader.TryLock() {
 			panic(c16Abort{"LogReader lock held"})
 		}
 		w.rep.node.logReader.Unlock()
+		if !w.rep.node.raftMu.TryLock() {
+			panic(c16Abort{"raftMu held"})
+		}
+		w.rep.node.raftMu.Unlock()
 	}
 	a := func() {
 		if !doneA {
@@ -845,7 +833,7 @@ func c16Items(run *verifkit.Run) [][]c16Cfg {
 			groups = append(groups, []c16Cfg{{WL: wl, Kind: kind}})
 		}
 	}
-	groups = append(groups, []c16Cfg{{WL: "import", Kind: c16Regular}})
+	groups = append(groups, []c16Cfg{{WL: "import", Kind: c16Regular}}, []c16Cfg{{WL: "import", Kind: c16OnDisk}})
 	// race: insertion points are positions 0..K of the save's own FS operations
 	for _, kind := range []string{c16Regular, c16OnDisk} {
 		for _, x := range []uint64{20, 8, 6} {
